@@ -682,7 +682,7 @@ pub fn gen(seed: u64, tier: &str) -> Vec<String> {
     let thorough = tier == "thorough";
     let mut g = G::new(seed);
     // ---- random histories
-    let nh = if thorough { 6000 } else { 170 };
+    let nh = if thorough { 6000 } else { 1000 };
     for i in 0..nh {
         g.history(i, 40);
     }
@@ -690,7 +690,7 @@ pub fn gen(seed: u64, tier: &str) -> Vec<String> {
     let mut idx = 0;
     for size in 0..=9u64 {
         for big in [false, true] {
-            g.boundary(idx, size, big, if thorough { 1 } else { 9 });
+            g.boundary(idx, size, big, if thorough { 1 } else { 2 });
             idx += 1;
         }
     }
@@ -711,7 +711,7 @@ pub fn gen(seed: u64, tier: &str) -> Vec<String> {
             }
         }
     } else {
-        for _ in 0..70 {
+        for _ in 0..300 {
             let cells = g.rng.below(4);
             let at = atoms(cells);
             let k = g.rng.below(4) as usize;
@@ -732,7 +732,7 @@ pub fn gen(seed: u64, tier: &str) -> Vec<String> {
         let setup = setup_lines(*cells, ats);
         let ops = accepted_ops(*cells);
         for o in &ops {
-            if !thorough && !g.rng.chance(1, 6) {
+            if !thorough && !g.rng.chance(1, 4) {
                 continue;
             }
             g.start(format!("rel.{:07}", n), n % 2 == 1);
